@@ -38,7 +38,9 @@ TargetUnreachable == 6
 
 M0 == [sent |-> <<>>, ndel |-> 0, alive |-> <<>>, op |-> "none", t0 |-> 0, tmo |-> -1, d |-> <<>>,
        decisive |-> "none", wrote |-> FALSE, unspec |-> FALSE, unspecNext |-> FALSE,
-       closedAt |-> -1, rr |-> -1, lastFail |-> [t0 |-> -1, d |-> <<>>, on |-> FALSE], fail |-> "ok"]
+       closedAt |-> -1, rr |-> -1, lastFail |-> [t0 |-> -1, d |-> <<>>, on |-> FALSE], fail |-> "ok",
+       \* a read issued by ANOTHER task of the caller and still pending (op "bgread"); at most one
+       bg |-> [on |-> FALSE, t0 |-> 0, tmo |-> -1]]
 
 Fail(m, label) == [m EXCEPT !.fail = label]
 
@@ -81,10 +83,13 @@ OnOut(c, m, t, f) ==
     [] OTHER -> Fail(m, "wire/unexpected-frame-written")
 
 OnBegin(c, m, e) ==
+  IF e.op = "bgread" THEN [m EXCEPT !.bg = [on |-> TRUE, t0 |-> e.t, tmo |-> e.tmo]] ELSE
   [m EXCEPT !.op = e.op, !.t0 = e.t, !.tmo = e.tmo, !.d = e.d, !.decisive = "none", !.wrote = FALSE,
             !.unspec = (m.unspec \/ m.unspecNext), !.lastFail = [t0 |-> -1, d |-> <<>>, on |-> FALSE]]
 
-EndRead(c, m, e) ==
+\* a read that started at t0 with caller timeout tmo ends (the foreground read, or the pending background one:
+\* D2/D3 do not depend on which task of the caller reads)
+EndReadG(c, m, e, t0, tmo) ==
   CASE e.res = "ok" ->
          IF m.ndel < Len(m.sent) /\ e.d = m.sent[m.ndel + 1].d
          THEN [m EXCEPT !.ndel = @ + 1]
@@ -92,11 +97,13 @@ EndRead(c, m, e) ==
     [] e.res = "Timeout" ->
          IF m.closedAt = -1 /\ m.ndel < Len(m.sent) /\ m.sent[m.ndel + 1].t < e.t - SlackMs
          THEN Fail(m, "D3/message-for-us-available-but-read-timed-out")
-         ELSE IF m.tmo = -1 \/ e.t < m.t0 + m.tmo THEN Fail(m, "read/timeout-before-the-caller-deadline")
+         ELSE IF tmo = -1 \/ e.t < t0 + tmo THEN Fail(m, "read/timeout-before-the-caller-deadline")
          ELSE m
     [] e.res = "ConnErr" ->
          IF m.closedAt # -1 THEN m ELSE Fail(m, "D2/read-failed-on-an-open-connection")
     [] OTHER -> Fail(m, "read/unexpected-exception")
+
+EndRead(c, m, e) == EndReadG(c, m, e, m.t0, m.tmo)
 
 EndWrite(c, m, e) ==
   IF m.unspec \/ (m.closedAt # -1 /\ m.closedAt <= m.t0) THEN
@@ -128,6 +135,7 @@ EndConnect(c, m, e) ==
     [] OTHER -> Fail(m, "connect/unexpected-exception")
 
 OnEnd(c, m, e) ==
+  IF e.op = "bgread" THEN [EndReadG(c, m, e, m.bg.t0, m.bg.tmo) EXCEPT !.bg.on = FALSE] ELSE
   LET m1 == CASE e.op = "read" -> EndRead(c, m, e)
               [] e.op = "write" -> EndWrite(c, m, e)
               [] e.op = "connect" -> EndConnect(c, m, e)
